@@ -139,6 +139,7 @@ class Layout(object):
         val_of = {}
         for v in range(1024):
             val_of[si_b2a(struct.pack(">H", v << 6))[:2].decode("ascii")] = v
+        self._val_of = val_of
         self.counts = dict(counts)
         self.buckets = {}    # prefix index -> [names]
         n = 0
@@ -161,6 +162,28 @@ class Layout(object):
             self.buckets[idx] = names
         self.n = n
         self.runs = 0
+
+    def add_bucket(self, idx, rng):
+        """A new bucket directory in prefix idx, made through the server."""
+        from allmydata.storage.common import si_b2a
+        v = self._val_of[self.prefixes[idx]]
+        while True:
+            si = bytes([v >> 2, ((v & 3) << 6) | rng.getrandbits(6)]) + bytes(rng.getrandbits(8) for _ in range(14))
+            name = si_b2a(si).decode("ascii")
+            if name not in self.buckets.get(idx, []):
+                break
+        _, writers = self.ss.allocate_buckets(si, b"r" * 32, b"c" * 32, {0}, 3)
+        writers[0].write(0, b"abc")
+        writers[0].close()
+        self.buckets.setdefault(idx, []).append(name)
+        self.n += 1
+        return name
+
+    def remove_bucket(self, idx, name):
+        import shutil
+        shutil.rmtree(os.path.join(self.ss.sharedir, self.prefixes[idx], name))
+        self.buckets[idx].remove(name)
+        self.n -= 1
 
     def listing(self, idx):
         try:
@@ -250,6 +273,110 @@ def run_impl(layout, specs):
         except OSError:
             pass
     return slices, final
+
+
+def run_impl_epochs(layout, epochs, rng):
+    """Several epochs on the SAME crawler object (unless a kill replaces it): before each epoch the
+    bucket set is changed (ops: ("add", prefix index) / ("remove", prefix index, position)), then the
+    epoch's slices run.  Returns ([(listing per used prefix, bucket set, specs, per-slice events)], final)."""
+    from allmydata.storage import crawler as crawler_mod
+    Recorder = make_recorder()
+    layout.runs += 1
+    statefile = os.path.join(layout.base, "c27-state-%d" % layout.runs)
+    clock = ScriptedTime()
+    saved_time = crawler_mod.time
+    crawler_mod.time = clock
+    out = []
+    try:
+        log = []
+        c = Recorder(layout.ss, statefile, clock, log)
+        for ops, specs in epochs:
+            for op in ops:
+                if op[0] == "add":
+                    layout.add_bucket(op[1], rng)
+                elif layout.buckets.get(op[1]):
+                    names = sorted(layout.buckets[op[1]])
+                    layout.remove_bucket(op[1], names[op[2] % len(names)])
+            listing = {i: layout.listing(i) for i in sorted(layout.buckets) if layout.buckets[i]}
+            present = set((i, b) for i in layout.buckets for b in layout.buckets[i])
+            slices = []
+            for ticks, kill in specs:
+                del log[:]
+                clock.ticks = list(ticks)
+                clock.pending_check = False
+                c.slice_events = 0
+                c.kill_after = kill
+                if kill == 0:
+                    killed = True
+                else:
+                    try:
+                        c.start_slice()
+                        killed = kill is not None
+                    except Killed:
+                        killed = True
+                slices.append(list(log))
+                if killed:
+                    c = Recorder(layout.ss, statefile, clock, log)
+            out.append((listing, present, specs, slices))
+        final = read_state(statefile + ".json", c.prefixes) if os.path.exists(statefile + ".json") else None
+    finally:
+        crawler_mod.time = saved_time
+    for ext in (".json", ".tmp"):
+        try:
+            os.unlink(statefile + ext)
+        except OSError:
+            pass
+    return out, final
+
+
+def oracle_epochs(ctx, result, case):
+    """The property on a history whose bucket set changes between cycles: a cycle processes every
+    bucket present during it, only those, and without kills each exactly once."""
+    finished = []
+    anykill = False
+    for e, (listing, present, specs, slices) in enumerate(result):
+        nokill = all(k is None for _, k in specs)
+        anykill = anykill or not nokill
+        seen = {}
+        for ev in (ev for sl in slices for ev in sl):
+            if ev[0] == "proc":
+                key = (ev[1], ev[2], ev[3])
+                seen[key] = seen.get(key, 0) + 1
+                if (ev[2], ev[3]) not in present:
+                    ctx.oracle_fail("crawler-processes-nonexistent-bucket",
+                                    "epoch %d: process_bucket called for %r, which is not (or no longer) a bucket of prefix %d" % (e, ev[3], ev[2]),
+                                    case=case, observed=list(ev))
+                if nokill and seen[key] > 1:
+                    ctx.oracle_fail("crawler-bucket-processed-twice-without-kill",
+                                    "epoch %d: bucket %s processed %d times in cycle %d although the process was never killed" % (e, ev[3], seen[key], ev[1]),
+                                    case=case, expected=1, observed=seen[key])
+            elif ev[0] == "fin":
+                c = ev[1]
+                missing = sorted(b for (i, b) in present if (c, i, b) not in seen)
+                if missing:
+                    ctx.oracle_fail("crawler-cycle-finished-with-unprocessed-bucket",
+                                    "epoch %d: finished_cycle(%d) was called but %d of the %d buckets present since before the cycle began were never "
+                                    "processed in it: %s" % (e, c, len(missing), len(present), missing[:3]),
+                                    case=case, expected=sorted(b for _, b in present), observed=sorted(k[2] for k in seen if k[0] == c))
+                ok = (c == 0) if not finished else (c in (finished[-1], finished[-1] + 1) and (anykill or c == finished[-1] + 1))
+                if not ok:
+                    ctx.oracle_fail("crawler-cycle-number-sequence", "finished_cycle numbers %r are followed by %d" % (finished, c),
+                                    case=case, expected=(finished[-1] + 1) if finished else 0, observed=c)
+                finished.append(c)
+    return finished
+
+
+def epochs_term(layout, result, final):
+    watch = layout.watch()
+    eps = []
+    for listing, present, specs, slices in result:
+        assoc = T.lst(["(%s, %s)" % (T.nat(i), T.lst([t_name(b) for b in listing[i]])) for i in sorted(listing)])
+        sp = T.lst(["(mk_slice %s %s)" % (t_ticks(ticks), T.opt(None if kill is None else T.nat(kill))) for ticks, kill in specs])
+        eps.append("(%s, %s)" % (assoc, sp))
+    obs = [ev for _, _, _, slices in result for sl in slices for ev in sl if ev[0] != "pdone" or ev[2] in watch]
+    fin = final if final is not None else (None, None, 0, None)
+    return "epochs_agree %s %s %s %s %s" % (T.nat(len(layout.prefixes)), T.lst(eps), T.lst([T.N(i) for i in watch]),
+                                            T.lst([t_event(e) for e in obs]), t_pstate(fin))
 
 
 # ---- rendering ---------------------------------------------------------------
@@ -380,6 +507,21 @@ class Batch(object):
         if len(ctx.samples) < 4 and disturbed and layout.n >= 2:
             ctx.sample({"case": case, "log_without_finished_prefix": obs[:40], "final_state": final})
         return slices, final
+
+    def add_epochs(self, layout, epochs, rng, kind, recipe):
+        ctx = self.ctx
+        result, final = run_impl_epochs(layout, epochs, rng)
+        case = {"epochs_recipe": recipe,
+                "epochs": [{"buckets": sorted([i, b] for i, b in present), "specs": [[[int(x) for x in t], k] for t, k in specs]}
+                           for _, present, specs, _ in result]}
+        finished = oracle_epochs(ctx, result, case)
+        key = ("epochs", tuple((tuple(sorted(len(v) for v in listing.values())), compress(specs)) for listing, _, specs, _ in result),
+               tuple(sorted(listing)) if (listing := result[0][0]) is not None else ())
+        ctx.case(key if len(finished) >= 2 else None, kind=kind)
+        self.terms.append(epochs_term(layout, result, final))
+        obs = [list(ev) for _, _, _, slices in result for sl in slices for ev in sl if ev[0] != "pdone"]
+        self.info.append((case, obs, final))
+        return result, final
 
     def flush(self, tag):
         """Hand the collected terms to Coq in the background (the crawler runs go on meanwhile)."""
@@ -526,12 +668,88 @@ def run(ctx):
                 batch.add(layout, specs, "random-schedule")
         if len(batch.terms) >= 400:
             batch.flush("c27")
+    # ---- the bucket set changes while the crawler is idle between cycles (same crawler object) ----
+    recipes = epoch_recipes(ctx, thorough)
+    for k, recipe in enumerate(recipes):
+        run_recipe(ctx, batch, recipe, "e%d" % k)
+        if len(batch.terms) >= 400:
+            batch.flush("c27")
     batch.flush("c27")
     batch.finish()
 
 
+def epoch_recipes(ctx, thorough):
+    """Histories of several cycles with buckets added/removed between cycles.  A recipe is
+    {"counts": {prefix index: buckets at the start}, "epochs": [[ops, specs], ...], "key": ...}."""
+    full = [[], None]
+    out = []
+    k = 0
+    singles = [0, 1, 500, 1023] if thorough else [0, 500, 1023]
+    for idx in singles:
+        for start in ((0, 1, 2, 3) if thorough else (0, 1, 2)):
+            # exactly one populated prefix directory, no interruption at all
+            out.append({"counts": {idx: start} if start else {}, "key": k, "epochs": [
+                [[], [full]], [[["add", idx]], [full]], [[], [full]], [[["remove", idx, 0]], [full]],
+                [[["add", idx], ["add", idx]], [full, full]], [[["remove", idx, 1], ["add", idx]], [full]]]})
+            k += 1
+    n = ctx.n(8, 60)
+    for j in range(n):
+        r = ctx.rng("epochs", j)
+        ps = r.choice([[0], [500], [1023], [3], [0, 1], [0, 1023], [511, 512], [7, 600, 1023]])
+        counts = {}
+        for _ in range(r.choice([0, 1, 2, 3])):
+            q = r.choice(ps)
+            counts[q] = counts.get(q, 0) + 1
+        epochs = []
+        for e in range(r.randint(2, 5)):
+            ops = []
+            for _ in range(r.choice([0, 1, 1, 2])):
+                if r.random() < 0.65:
+                    ops.append(["add", r.choice(ps)])
+                else:
+                    ops.append(["remove", r.choice(ps), r.randrange(4)])
+            specs = []
+            for _ in range(r.choice([0, 0, 1, 2])):
+                nt = r.choice([1, 2, 3, 1025])
+                specs.append([[r.random() < 0.4 for _ in range(nt)], r.choice([None, None, None, 1, 2, 3, r.randint(0, 1040)])])
+            specs.append([[], None])      # the epoch ends between two cycles
+            epochs.append([ops if e else [], specs])
+        out.append({"counts": counts, "key": k, "epochs": epochs})
+        k += 1
+    return out
+
+
+def run_recipe(ctx, batch, recipe, tag):
+    rng = ctx.rng("recipe", recipe["key"])
+    counts = {int(i): c for i, c in recipe["counts"].items()}
+    layout = Layout(tag, counts, rng)
+    # prefixes that get buckets later must be watched as well
+    for ops, _ in recipe["epochs"]:
+        for op in ops:
+            layout.buckets.setdefault(int(op[1]), [])
+    watch_extra = sorted(layout.buckets)
+    orig_watch = layout.watch
+
+    def watch():
+        w = set(orig_watch())
+        for i in watch_extra:
+            w.update(j for j in (i - 1, i, i + 1) if 0 <= j < len(layout.prefixes))
+        return sorted(w)
+    layout.watch = watch
+    epochs = [([tuple(op) for op in ops], [([bool(b) for b in t], kl) for t, kl in specs]) for ops, specs in recipe["epochs"]]
+    populated = len([i for i in counts if counts[i]])
+    kind = "epochs-one-prefix" if len(watch_extra) <= 1 else "epochs-several-prefixes"
+    return batch.add_epochs(layout, epochs, rng, kind, recipe)
+
+
 def replay(ctx, rec):
     case = rec["case"]
+    if "epochs_recipe" in case:
+        b = Batch(ctx)
+        result, final = run_recipe(ctx, b, case["epochs_recipe"], "replay-epochs")
+        return {"note": "bucket names are regenerated from the recipe (same prefixes, counts, operations and schedule)",
+                "log_without_finished_prefix": [list(ev) for _, _, _, slices in result for sl in slices for ev in sl if ev[0] != "pdone"][:200],
+                "final_state": final}
     counts = {int(k): v for k, v in case["layout"].items()}
     layout = Layout("replay", counts, ctx.rng("replay"))
     specs = [([bool(b) for b in ticks], kill) for ticks, kill in case["specs"]]
